@@ -6,6 +6,7 @@ import NV.Common.Proto
 import NV.C16.Model
 import NV.C16.Tree
 import NV.C16.Spec
+import NV.C16.Hash
 
 namespace NV.C16
 
@@ -121,9 +122,31 @@ def saveName (file : List Byte) : List Byte :=
   | 47 :: r => r
   | b => b
 
-def doRestoreText (s : DState) (t : List Byte) : DState :=
+/-- the hash table of a restored mapping whose keys are all integers, as restore_mapping builds it: allocate_mapping
+    (pairs counted by the pre-pass), then one `Hash.insert` per pair in file order — printed like the harness' `tbl` line -/
+def tblLine (t : List Byte) (v : V) : Option String :=
+  match v, cstr t with
+  | .map ps, 40 :: 91 :: body =>
+    let keys := ps.toList.filterMap (fun kv => match kv.1 with | .int n => some n | _ => none)
+    if keys.length != ps.toList.length then none else
+    match preD utf8Len (body.length + 2) 1 true true false body 0 [] with
+    | some (_, n, _) =>
+      match Hash.insertAll Hash.intKeyHash (Hash.allocate (n / 2)) keys with
+      | some tb =>
+        let chains := (tb.buckets.zipIdx.filter (fun p => !p.1.isEmpty)).map
+          (fun p => s!" {p.2}:" ++ ",".intercalate (p.1.map (fun (k : Int) => toString k)))
+        some (s!"tbl size={tb.buckets.length} unfilled={tb.unfilled} count={keys.length}" ++ String.join chains)
+      | none => some "tbl out-of-memory"
+    | none => none
+  | _, _ => none
+
+def doRestoreText (s : DState) (t : List Byte) (dump : Bool := false) : DState :=
   match restoreVariable FloatIO utf8Len t with
-  | .value v => s.emit ("rest " ++ pv false v)
+  | .value v =>
+    let s := s.emit ("rest " ++ pv false v)
+    match (if dump then tblLine t v else none) with
+    | some l => s.emit l
+    | none => s
   | .error m => (s.emit ("err " ++ m)).emit "resterr"
   | .crash => s.emit "crash model"
   | .stuck => s.emit "stuck model"
@@ -220,8 +243,8 @@ def runCmdFlat (s : DState) (line : String) : DState :=
     | "mk", [some a, some b] => doRoundtrip s (.cls (Vals.ofList [a, b]))
     | "big", [] => doRoundtrip s (.real (Float.ofBits 0x7ff0000000000000))
     | _, _ => s.emit "lpcerr"
-  | ["rv", h] => doRestoreText s (bytesOfHex h)
-  | ["rx", _, h] => doRestoreText s (bytesOfHex h)
+  | ["rv", h] => doRestoreText s (bytesOfHex h) true
+  | ["rx", _, h] => doRestoreText s (bytesOfHex h) true
   | ["rv"] => doRestoreText s []
   | ["set", i, a, b, st, c] =>
     match parseValue i, parseValue a, parseValue b, parseValue st, parseValue c with
